@@ -240,8 +240,9 @@ type World struct {
 	DiskFn      func(c DiskCall) DiskVerdict // R10: verdict for one data-file read/write
 	DiskSlowFor func(c DiskCall) time.Duration
 	Log         func(format string, a ...interface{})
-	StrictLocks bool // every lock acquisition of a simulated goroutine is arbitrated at quiescence (lock.go)
-	KeysPerm    bool // permute map iteration order (seeded) instead of plain sorted order
+	LockJitter  time.Duration // upper bound of the simulated delay before each lock request (lock.go: jitter)
+	StrictLocks bool          // every lock acquisition of a simulated goroutine is arbitrated at quiescence (lock.go)
+	KeysPerm    bool          // permute map iteration order (seeded) instead of plain sorted order
 
 	Fatals  []string
 	Panics  []string
